@@ -129,6 +129,10 @@ def run(ctx):
     w = g_nn.path([gh.entry], hit) if hit else None
     ctx.check("R6-empty-selection-kept", wh, bool(none_nodes) and not hit, "specific_files turns into None (commit everything) only when the caller passed None — an empty list stays an empty selection", construct=gh.nodes[hit[0]].text() if hit else "", message="an empty specific_files list can turn into None: 'commit no files' becomes 'commit everything' (and the selected-file-merge refusal is bypassed)", witness=gh.show_path(w) if w else None)
     refusal = [n.id for n in g.nodes if n.kind == "stmt" and isinstance(n.ast, ast.Raise) and "CannotCommitSelectedFileMerge" in norm(n.ast)]
+    # the selection and the exclusion reach iter_changes exactly as the caller gave them (minimal covering set only)
+    for attr, param, empty in (("self.exclude", "exclude", "[]"), ("self.specific_files", "specific_files", "None")):
+        vals = sorted({norm(s_.value) for q_, f_ in repo.module(CM).functions().items() if q_.startswith("Commit.") for s_ in walk_own(f_) if isinstance(s_, ast.Assign) and any(norm(t) == attr for t in s_.targets)})
+        ctx.check("R6-selection-unnarrowed", wh, vals == sorted([f"sorted(minimum_path_selection({param}))", empty]), f"{attr} is sorted(minimum_path_selection({param})) or {empty}, and nothing else", construct=str(vals), message=f"{attr} is also assigned {[v for v in vals if v not in (f'sorted(minimum_path_selection({param}))', empty)]}: the caller's {'exclusions' if param == 'exclude' else 'selection'} are filtered before they reach the change iterator — an excluded path is committed (or a selected one is not) although the caller asked otherwise")
     ctx.check("R6-selected-merge-refused", where, len(refusal) >= 1 and not (set(refusal) & g.reach(gb)), "a selected-file commit of a merge is refused before the builder exists")
 
 
@@ -143,6 +147,7 @@ def _unlock_aborts(ctx):
 
 _H = "            except Exception:\n                mutter(\"aborting commit write group because of exception:\")\n                trace.log_exception_quietly()\n                self.builder.abort()\n                raise\n"
 MUTANTS = [
+    Mutant("excludes outside the selection dropped", CM, "                self.specific_files = sorted(minimum_path_selection(specific_files))\n            else:", "                self.specific_files = sorted(minimum_path_selection(specific_files))\n                self.exclude = [p for p in self.exclude if is_inside_any(self.specific_files, p)]\n            else:", expect="R6-selection-unnarrowed"),
     Mutant("tip moved before builder.commit", CM, "                # Add revision data to the local branch\n                self.rev_id = self.builder.commit(self.message)\n", "                # Add revision data to the local branch\n                self._update_branches(old_revno, old_revid, new_revno)\n                self.rev_id = self.builder.commit(self.message)\n", expect=["R1-tip-after-builder-commit", "R1-single-update-site", "R1-tip-outside-pipeline-try"]),
     Mutant("tip written directly in commit()", CM, "            self._update_branches(old_revno, old_revid, new_revno)\n\n            # Make the working tree", "            self.branch.set_last_revision_info(new_revno, self.rev_id)\n            self._update_branches(old_revno, old_revid, new_revno)\n\n            # Make the working tree", expect="R1-tip-writers"),
     Mutant("neutral: only the explicit builder.abort() removed (unlock safety net still aborts)", CM, _H, "            except Exception:\n                mutter(\"aborting commit write group because of exception:\")\n                raise\n", neutral=True, note="layer 1 only: property preserved by the unlock safety net (information)"),
